@@ -46,6 +46,8 @@ inductive AVal where
   | inst
   /-- something whose items, when it is iterated, are all described by `a` -/
   | items (a : AVal)
+  /-- an `int` (not a `bool`) that is one of these naturals -/
+  | intOneOf (ns : List Nat)
 deriving DecidableEq, Repr, Inhabited
 
 abbrev AEnv := List (String × AVal)
@@ -69,6 +71,7 @@ def AVal.pieces : AVal → List Piece
   | .str p => p
   | .int lo hi => [.nat lo hi]
   | .inst => [.inst]
+  | .intOneOf ns => [.oneOf (ns.map fun n => toString n)]
   | _ => [.any]
 
 def optMax : Option Nat → Option Nat → Option Nat
@@ -86,15 +89,41 @@ def AVal.strChoices : AVal → Option (List String)
   | .str [.oneOf ss] => some ss
   | _ => none
 
+/-- a bounded `int` description as the finite list of naturals it stands for -/
+def AVal.natChoices : AVal → Option (List Nat)
+  | .int lo (some hi) => some (List.range' lo (hi - lo))
+  | .intOneOf ns => some ns
+  | _ => none
+
+/-- union of two lists of naturals (elements of the second that the first lacks are appended) -/
+def natUnion (x y : List Nat) : List Nat := x ++ y.filter fun n => !x.contains n
+
+/-- the interval hull `[min, max + 1)` of a list of naturals -/
+def natHull (u : List Nat) : AVal :=
+  .int (u.foldl min (u.headD 0)) (some (u.foldl max 0 + 1))
+
+/-- join of two bounded `int` descriptions: the interval hull when it adds no number (or when the
+union has more than 64 elements), else the finite union itself -/
+def joinNats (x y : List Nat) : AVal :=
+  let u := natUnion x y
+  let lo := u.foldl min (u.headD 0)
+  let hi := u.foldl max 0 + 1
+  if u.length == hi - lo then natHull u
+  else if u.length ≤ 64 then .intOneOf u
+  else natHull u
+
 /-- least upper bound, coarsely -/
 def AVal.join (a b : AVal) : AVal :=
   if a = b then a else
-  match a, b with
-  | .int l1 h1, .int l2 h2 => .int (min l1 l2) (optMax h1 h2)
+  match a.natChoices, b.natChoices with
+  | some x, some y => joinNats x y
   | _, _ =>
-    match a.strChoices, b.strChoices with
-    | some x, some y => .str [.oneOf (x ++ y)]
-    | _, _ => .any
+    match a, b with
+    | .int l1 h1, .int l2 h2 => .int (min l1 l2) (optMax h1 h2)
+    | _, _ =>
+      match a.strChoices, b.strChoices with
+      | some x, some y => .str [.oneOf (x ++ y)]
+      | _, _ => .any
 
 def AVal.joinAll : List AVal → AVal
   | [] => .any
